@@ -166,6 +166,9 @@ def shape_list(tier):
         shapes.append(('sent-atom-j/' + nm, ('Sentence', 'Judgement', t, ('Eternal',), ())))
         shapes.append(('sent-atom-g/' + nm, ('Sentence', 'Goal', t, ('Past',), (0.5,))))
         shapes.append(('task-atom/' + nm, ('Task', (0.5,), 'Judgement', t, ('Present',), (1.0,))))
+        # every punctuation directly after an atom name (round 5: a name-character class that swallows one format's mark)
+        shapes.append(('sent-atom-q/' + nm, ('Sentence', 'Quest', t, ('Fixed', -7), ())))
+        shapes.append(('task-atom-q/' + nm, ('Task', (), 'Quest', t, ('Eternal',), ())))
     return shapes
 
 def main(tier, seed):
